@@ -75,7 +75,7 @@ def commands(common, *subs):
 FAMILY = [
     ("arg_int", arg("int"), "c"),
     ("arg_string", arg("string"), "c"),
-    ("arg_enum", arg("enum"), "c"),
+    ("arg_enum", arg("enum"), ""),
     ("arg_unsigned", arg("unsigned"), ""),
     ("flag_int", flag("f", "flag", "int", 42, 10), "c"),
     ("flag_string", flag(None, "flag", "string", "yes", "no"), "c"),
@@ -85,10 +85,10 @@ FAMILY = [
     ("unit_switch", usw(None, "flag"), ""),
     ("opt_int", opt("o", "opt", "int"), "c"),
     ("opt_string", opt(None, "opt", "string"), "c"),
-    ("opt_unsigned_default", opt("o", "opt", "unsigned", 7), "c"),
+    ("opt_unsigned_default", opt("o", "opt", "unsigned", 7), ""),
     ("opt_enum_default", opt(None, "opt", "enum", "v"), ""),
-    ("unit", unit(), "c"),
-    ("optional_arg", optional(arg("int")), "c"),
+    ("unit", unit(), ""),
+    ("optional_arg", optional(arg("int")), ""),
     ("many_arg_string", many(arg("string")), "c"),
     ("many_arg_int", many(arg("int")), ""),
     ("optional_opt", optional(opt("o", "opt", "int")), ""),
